@@ -296,6 +296,12 @@ def run(ctx, configs=None):
                     if kind and ek:
                         code = [int(v["discr"]) for v in ek[0]["variants"] if v["name"] == kind]
                     ok = ok and code == [H.ACCESS_DENIED[0]]
+                    # "run_on returns the shim's error": once the shim has refused, nothing that can fail in another way stands between
+                    # the flushed ERR and the return — in particular no further read from the client, whose failure (or a hang-up in
+                    # the middle of what the client pipelined) would be returned instead of the refusal
+                    rd = [cname(t["func"]) for pos2, bb, t in p.calls() if pos2 > pos and cname(t["func"]) == roles.f_read.path]
+                    ctx.ob("C11.gate", not rd, "rejection path reads from the client again (%s) before returning the shim's error" % ", ".join(sorted(set(rd))), fn=fi.path,
+                           construct="reject-no-read", where=fi.where(p.blocks[-1]), nontrivial=False)
                     ctx.ob("C11.gate", ok, "rejection path: ERR kind %s (code %s), ERR writes %d, flush after ERR %s (need 1045, one ERR, flushed)" % (kind, code, len(errw), bool(flushed)),
                            fn=fi.path, construct="reject-path", where=fi.where(p.blocks[-1]), sample={"rule": "gate/reject", "kind": kind, "code": code})
         ctx.floor("C11.gate", "accepting paths (%s)" % cfg, n_ok, 2 if cfg == "tls" else 1)
